@@ -66,6 +66,11 @@ def run(tape, scenario):
     od = ObjectDictionary()
     term, server = make_terminal(env.bus, "T0", 1001, mbx_out=(0x1000, n_out),
                                  mbx_in=(0x1400, n_in), od=od)
+    if tape.chance("c16/short-segments", 25):
+        # a terminal that does not fill its upload segments: any length from 1 byte on,
+        # also fewer than 7 (padded, with the count in the command byte) in the middle
+        server.segment_size = lambda room: tape.pick(
+            "c16/segment-bytes", [room, room, 1, 3, 6, 7, 8, max(1, room - 1), max(1, room // 2)])
     maxdelay = tape.draw("c16/maxdelay", 4)
     term.mbx_delay = lambda: tape.draw("c16/answer-delay", maxdelay + 1)
     mail_kind = tape.draw("c16/mail", 6)       # 0-3 none, 4 EoE, 5 emergency
